@@ -1,6 +1,6 @@
 (** C19 — proofs about the shutdown timeline model (Model/Shutdown.v). *)
 From Coq Require Import ZArith List Bool Lia.
-From WW Require Import Model.Shutdown.
+From WW Require Import Model.Shutdown Model.Config.
 Import ListNotations.
 Open Scope Z_scope.
 
@@ -147,4 +147,21 @@ Theorem sd_exit_code_spec W G l :
   (forall q, In q l -> sd_accepted W q = true -> sd_completes W G q = true) /\ sd_noticed W l < sd_deadline W G.
 Proof.
   rewrite <- sd_graceful_spec. unfold sd_exit_code. destruct (sd_graceful W G l); split; congruence.
+Qed.
+
+(** the start-up check of the periods (Model/Config.v) is [sd_startable] *)
+Lemma sd_startable_spec v c :
+  cf_periods_validate v c = None <-> sd_startable (cf_v_wait_nonneg v) (cf_waitbefore c) (cf_graceful c) = true.
+Proof.
+  unfold cf_periods_validate, sd_startable.
+  destruct (cf_v_wait_nonneg v && (cf_waitbefore c <? 0)); cbn [negb andb].
+  - split; discriminate.
+  - destruct (cf_graceful c <=? cf_waitbefore c) eqn:E; [apply Z.leb_le in E|apply Z.leb_gt in E].
+    + split; [discriminate|intros H; apply Z.ltb_lt in H; lia].
+    + split; [intros _; apply Z.ltb_lt; exact E|reflexivity].
+Qed.
+
+Lemma sd_startable_nonneg W G : sd_startable true W G = true <-> 0 <= W < G.
+Proof.
+  unfold sd_startable. cbn [andb]. rewrite andb_true_iff, negb_true_iff, Z.ltb_ge, Z.ltb_lt. reflexivity.
 Qed.
